@@ -78,6 +78,10 @@ def impl_fn(backend, order, cross):
         return getattr(f, "py_func", f)
     if backend == "numpy":
         return getattr(C, name + "_np")
+    if backend == "numpy_chunk":
+        # the same fallback with a tiny gather chunk, so that K > chunk exercises the multi-chunk path
+        f = getattr(C, name + "_np")
+        return lambda *a: f(*a, _chunk=2)
     if backend == "cuda":
         import speckit.core_cuda as CC
         return getattr(CC, name + "_cuda")
